@@ -6,7 +6,7 @@
      args = cfg table ops
        cfg   = [scion imode nts deadline server server_ia local_ia local]
        table = [[key nonce ad ct ok pt] ...]   AEAD Open answers recomputed by the harness with miscreant
-       ops   = [[0 [xchg ...]] | [1] | [2 ms] ...]     call / ResetInterleavedMode / pause (not modelled)
+       ops   = [[0 [xchg ...] unused-scripts] | [1] | [2 ms] ...]     call / ResetInterleavedMode / pause (not modelled)
        xchg  = [[ref ctx1 uid s2c authkey oireq] [event ...] recipe]
        event = [0 before xflags front payload crx from_server uid_ok auth_ok] | [1 before]
        front = src (IP)  |  [decode_ok nlayers last len_ok src_ia dst_ia src_host dst_host e2e tsopt auth] (SCION;
@@ -100,7 +100,7 @@ Fixpoint parse_xchgs (l : list value) : option (list pxchg) :=
 Inductive pop := PCall (xs : list pxchg) | PReset | PPause.
 Definition parse_op (v : value) : option pop :=
   match v with
-  | VL [VZ 0; VL xs] => match parse_xchgs xs with Some l => Some (PCall l) | None => None end
+  | VL [VZ 0; VL xs; _] => match parse_xchgs xs with Some l => Some (PCall l) | None => None end
   | VL [VZ 1] => Some PReset
   | VL [VZ 2; VZ _] => Some PPause
   | _ => None
@@ -140,7 +140,8 @@ Definition xo_value (c : config) (ql : request * loop_result) : value :=
   | LBlocked => VL [VZ 102; wire; VL []]
   end.
 Definition call_value (c : config) (cl : call_result * list (request * loop_result)) : value :=
-  let '(cr, l) := cl in
+  let '(cr0, l) := cl in
+  let cr := if c_scion c then scion_return cr0 else cr0 in
   match cr with
   | COffset off _ => VL [VZ 0; VZ off; VL (map (xo_value c) l)]
   | CError e => VL [VZ (eclass_code e); VZ 0; VL (map (xo_value c) l)]
@@ -184,33 +185,37 @@ Definition accepted_off (v : value) : option Z :=
   | VL [VZ 0; _; VL [_; _; _; _; VZ off]] => Some off
   | _ => None
   end.
-Definition call_ok (nts : bool) (xs : list pxchg) (v : value) : bool :=
+(* lenient: the known return value (offset 0, no error) of MeasureClockOffsetSCION for a call without any
+   accepted exchange is passed over here; the kind "scion.allfail" checks it strictly *)
+Definition call_ok (lenient nts : bool) (xs : list pxchg) (v : value) : bool :=
   match v with
   | VL [VZ code; VZ off; VL obs] =>
       xchgs_ok nts xs obs &&
-      (if code =? 0 then existsb (fun x => match accepted_off x with Some o => o =? off | None => false end) obs
+      (if code =? 0 then
+         existsb (fun x => match accepted_off x with Some o => o =? off | None => false end) obs ||
+         (lenient && (off =? 0) && negb (existsb (fun x => match accepted_off x with Some _ => true | None => false end) obs))
        else true)
   | _ => false
   end.
-Fixpoint calls_ok (nts : bool) (ops : list pop) (outs : list value) : bool :=
+Fixpoint calls_ok (lenient nts : bool) (ops : list pop) (outs : list value) : bool :=
   match ops with
   | [] => match outs with [] => true | _ => false end
   | PCall xs :: r =>
       match outs with
-      | v :: orest => call_ok nts xs v && calls_ok nts r orest
+      | v :: orest => call_ok lenient nts xs v && calls_ok lenient nts r orest
       | [] => false
       end
-  | _ :: r => calls_ok nts r outs
+  | _ :: r => calls_ok lenient nts r outs
   end.
 
 Definition glue_C05 (k : string) (a o : list value) : option verdict :=
-  if is k "ip.hist" || is k "scion.hist" then
+  if is k "ip.hist" || is k "scion.hist" || is k "scion.allfail" then
     match a with
     | [cfgv; VL tabv; VL opsv] =>
         match parse_cfg cfgv, table_of tabv, parse_ops opsv with
         | Some c, Some t, Some ops =>
             let expected := map (call_value c) (history (open_tab t) c cstate0 (hops_of ops)) in
-            Some (functional expected o (calls_ok (c_nts c) ops o))
+            Some (functional expected o (calls_ok (is k "scion.hist") (c_nts c) ops o))
         | _, _, _ => Some (relational false true)
         end
     | _ => Some (relational false true)
